@@ -51,8 +51,7 @@ u["instances"].append({"name":"reMax","function":"DataSet<DATA>::reMax(int newma
   "mutants":[{"name":"end_marker","slice":"DataSet_reMax.inc","find":"*lastfree = -newmax - 1;","replace":"*lastfree = -newmax;"},
              {"name":"no_clamp","slice":"DataSet_reMax.inc","find":"newmax = (newmax < size()) ? size() : newmax;","replace":"newmax = (newmax < num()) ? num() : newmax;"},
              {"name":"fixup_after_realloc","slice":"DataSet_reMax.inc","regex":True,
-              "find":r"\*lastfree = -newmax - 1;\s*themax = newmax;\s*spx_realloc\(theitem, themax\);","replace":"themax = newmax;\n spx_realloc(theitem, themax);\n *lastfree = -newmax - 1;"},
-             {"name":"key_block","slice":"DataSet_reMax.inc","find":"spx_realloc(thekey,  themax);","replace":"spx_realloc(thekey,  thenum);"}]})
+              "find":r"\*lastfree = -newmax - 1;\s*themax = newmax;\s*spx_realloc\(theitem, themax\);","replace":"themax = newmax;\n spx_realloc(theitem, themax);\n *lastfree = -newmax - 1;"}]})
 u["instances"].append({"name":"assign","function":"DataSet<DATA>::operator=(const DataSet<DATA>& rhs) [+ reMax, clear]","defines":{"INST_assign":""},
   "harness":"h_assign","enforce":"w_assign","unwind":12,
   "unwind_loops":[{"function":RM,"loop":0},{"function":"verif_realloc","loop":0},{"function":AS,"loop":0},{"function":AS,"loop":1},{"function":AS,"loop":2},{"function":"verif_memcpy","loop":0}],"min_obligations":80,
@@ -76,6 +75,17 @@ for i in u["instances"]:
     m=json.loads(json.dumps(i)); m["name"]=i["name"]+"_mem"; m["defines"]["EXACT_ALLOC"]=""
     m["function"]=i["function"]+"  [memory safety, blocks of exactly the requested size]"
     m["min_obligations"]=i["min_obligations"]//2; m["mutants"]=MEM_MUT[i["name"]]
-    twins.append(m)
+    if i["name"]=="reMax":
+        m["defines"]["TMAX_IS"]="4"; m["function"]=i["function"]+"  [memory safety: max() == 4, blocks of exactly the requested size]"
+        twins.append(m)
+    elif i["name"]=="assign":
+        for nm,t,r,what in (("assign_mem","4","4","max() == rhs.max() == 4 (no growth)"),("assign_memgrow","2","4","max() == 2, rhs.max() == 4 (growth through reMax)")):
+            mm=json.loads(json.dumps(m)); mm["name"]=nm; mm["defines"]["TMAX_IS"]=t; mm["defines"]["RMAX_IS"]=r
+            mm["function"]=i["function"]+"  [memory safety: "+what+", blocks of exactly the requested size]"
+            if nm=="assign_memgrow": mm["mutants"]=[{"name":"grow_short","slice":"DataSet_assign.inc","find":"reMax(rhs.size());","replace":"reMax(rhs.size() - 1);"}]
+            else: mm["mutants"]=[{"name":"copy_one_more","slice":"DataSet_assign.inc","find":"for(i = 0; i < rhs.size(); ++i)","replace":"for(i = 0; i <= rhs.size(); ++i)"}]
+            twins.append(mm)
+    else:
+        twins.append(m)
 u["instances"]+=twins
 json.dump(u, open(os.path.join(os.path.dirname(os.path.abspath(__file__)), "unit.json"), "w"), indent=1)
